@@ -139,6 +139,8 @@ def pipeline(model, upto="rho"):
     sc = Scenario()
     if model.get("repeat"):
         sc.add("repeat 1")        # every prepare()/compute() is issued twice (must be idempotent)
+    if model.get("phased"):
+        sc.add("phased 1")        # all prepare() calls of the density matrix, the operators and the first consumer come before their compute() calls
     if model.get("early"):
         sc.add("early %s" % fnum(model["beta"]))   # Symmetrizer, StatesClassification, Hamiltonian, DensityMatrix are constructed before IndexHamiltonian::prepare()
     lattice_lines(sc, model)
